@@ -61,6 +61,7 @@ broadcast use vstd::std_specs::hash::group_hash_axioms;
     for n in ('BulkStr', 'Array', 'Resp'):
         U.add(broker_common.strip(R.item('enum', n)) + '\n')
     U.add('pub type RespVec = Resp<Vec<u8>>;\n')
+    U.prelude('c14_common.rs')
     U.prelude('c14_slots_spec.rs')
     g = C.fn('get_range_list', within=r'impl SlotRange\b')
     g.header("    pub fn get_range_list(&self) -> (r: &RangeList)\n        ensures *r == self.range_list")
